@@ -33,7 +33,9 @@ GROUPS: dict[str, list[tuple[str, str]]] = {
     "solution": [("solution.py", "Solution")],
     "solve_lp": [("solvers/lp_solver.py", "solve_lp")],
     "solve_scipy": [("solvers/scipy_solver.py", "solve_scipy")],
-    "constraint": [("constraints.py", "Constraint"), ("constraints.py", "_make_constraint")],
+    # Constraint.violation / is_satisfied / __post_init__ / evaluate are translated (py2lean_post.gen_constraint ->
+    # Generated/ConstraintFns, Props/ConstraintTie); _make_constraint's shape is pinned by Glue.makeConstraint_shape
+    "constraint": [("constraints.py", "Constraint.get_variables"), ("constraints.py", "_make_constraint")],
     "vecmat": [("core/vectors.py", "VectorVariable"), ("core/matrices.py", "MatrixVariable")],
     "parameter": [("core/parameters.py", "Parameter"), ("core/parameters.py", "_as_parameter_value")],
     # __init__, _invalidate_caches, minimize, maximize, subject_to, _is_linear_problem, n_variables, get_bounds are translated
